@@ -8,9 +8,15 @@ type tagCycleValue struct {
 type tagCycleNode struct {
 	position *Token
 	args     []IEvaluator
-	idx      int
 	asName   string
 	silent   bool
+}
+
+// next returns the argument the cycle is at in this execution and advances it.
+func (node *tagCycleNode) next(ctx *ExecutionContext) IEvaluator {
+	idx, _ := ctx.tagState[node].(int)
+	ctx.tagState[node] = idx + 1
+	return node.args[idx%len(node.args)]
 }
 
 func (cv *tagCycleValue) String() string {
@@ -18,8 +24,7 @@ func (cv *tagCycleValue) String() string {
 }
 
 func (node *tagCycleNode) Execute(ctx *ExecutionContext, writer TemplateWriter) *Error {
-	item := node.args[node.idx%len(node.args)]
-	node.idx++
+	item := node.next(ctx)
 
 	val, err := item.Evaluate(ctx)
 	if err != nil {
@@ -31,8 +36,7 @@ func (node *tagCycleNode) Execute(ctx *ExecutionContext, writer TemplateWriter) 
 		// {% cycle cycleitem %}
 
 		// Update the cycle value with next value
-		item := t.node.args[t.node.idx%len(t.node.args)]
-		t.node.idx++
+		item := t.node.next(ctx)
 
 		val, err := item.Evaluate(ctx)
 		if err != nil {
